@@ -19,6 +19,17 @@ struct isal_stub_ctl {
 };
 struct isal_stub_ctl isal_stub_ctl = {1, 0, 0, 0, 0, 0, 0, 0, 0};
 
+/* Under the simulator's scheduler every primitive is a yield point (the real library is a separate code base a thread
+ * can be preempted in); the statistics are skipped in the ThreadSanitizer flavour, where this file is instrumented so
+ * that accesses to buffers owned by the adapters are visible. */
+extern void liberasurecode_verif_hook(int kind, const void *obj, const char *site) __attribute__((weak));
+#define STUB_YIELD(site) do { if (liberasurecode_verif_hook) liberasurecode_verif_hook(2, 0, (site)); } while (0)
+#ifdef ISAL_STUB_NO_COUNTERS
+#define COUNT(x) ((void) 0)
+#else
+#define COUNT(x) (isal_stub_ctl.x++)
+#endif
+
 unsigned char gf_mul(unsigned char a, unsigned char b)
 {
     unsigned int r = 0, x = a, y = b;
@@ -49,7 +60,7 @@ void gf_gen_rs_matrix(unsigned char *a, int m, int k)
 {
     int i, j;
     unsigned char p, gen = 1;
-    isal_stub_ctl.n_gen++;
+    COUNT(n_gen);
     memset(a, 0, (size_t) k * m);
     for (i = 0; i < k; i++) a[k * i + i] = 1;
     for (i = k; i < m; i++) {
@@ -65,7 +76,7 @@ void gf_gen_rs_matrix(unsigned char *a, int m, int k)
 void gf_gen_cauchy1_matrix(unsigned char *a, int m, int k)
 {
     int i, j;
-    isal_stub_ctl.n_gen++;
+    COUNT(n_gen);
     memset(a, 0, (size_t) k * m);
     for (i = 0; i < k; i++) a[k * i + i] = 1;
     for (i = k; i < m; i++)
@@ -77,9 +88,10 @@ int gf_invert_matrix(unsigned char *in, unsigned char *out, const int n)
 {
     int i, j, c;
     unsigned char *w, t;
-    isal_stub_ctl.n_invert++;
+    STUB_YIELD("isal.gf_invert_matrix");
+    COUNT(n_invert);
     if (isal_stub_ctl.fail_invert_at > 0 && --isal_stub_ctl.fail_invert_at == 0) {
-        isal_stub_ctl.n_invert_failed_injected++;
+        isal_stub_ctl.n_invert_failed_injected++;   /* only in sequential plans */
         if (isal_stub_ctl.clobber_input) memset(in, 0xA5, (size_t) n * n);
         return -1;
     }
@@ -93,7 +105,7 @@ int gf_invert_matrix(unsigned char *in, unsigned char *out, const int n)
         if (piv < 0) {
             if (isal_stub_ctl.clobber_input) memcpy(in, w, (size_t) n * n);
             free(w);
-            isal_stub_ctl.n_invert_failed_real++;
+            COUNT(n_invert_failed_real);
             return -1;
         }
         if (piv != c)
@@ -124,7 +136,8 @@ int gf_invert_matrix(unsigned char *in, unsigned char *out, const int n)
 void ec_init_tables(int k, int rows, unsigned char *a, unsigned char *g_tbls)
 {
     int i, j;
-    isal_stub_ctl.n_init_tables++;
+    STUB_YIELD("isal.ec_init_tables");
+    COUNT(n_init_tables);
     for (i = 0; i < k * rows; i++) {
         unsigned char c = a[i];
         unsigned char *t = g_tbls + 32 * (size_t) i;
@@ -144,7 +157,8 @@ void ec_encode_data(int len, int k, int rows, unsigned char *g_tbls,
                     unsigned char **data, unsigned char **coding)
 {
     int r, j, i;
-    isal_stub_ctl.n_encode++;
+    STUB_YIELD("isal.ec_encode_data");
+    COUNT(n_encode);
     for (r = 0; r < rows; r++) {
         unsigned char *dst = coding[r];
         if (len > 0) memset(dst, 0, (size_t) len);
